@@ -26,6 +26,20 @@ add("C14", "E1", "model_checking", "explicit-state BFS collecting every distinct
 add("C17", "E1", "model_checking", "explicit-state BFS of the real Decoder under the byte-accounting monitor, plus long-run paths (and, thorough, the same in a build without overflow checks)",
     "every discarded-bytes report, finalize/reset result and frame boundary on every explored transition (same space as C05) must tile the input: count == bytes since the previous boundary minus the start sequence; runs of 65534..65537 bytes before a start sequence, before finalize and inside a frame", "§6 C17")
 
+E4T = "grammar-directed exhaustive input enumeration through both real parsers against an independent SML reader"
+add("C03", "E4", "model_checking", E4T + " and an all-valid-encodings generator",
+    "full product of list-entry fields (names, status classes, times, units, scalers, every value type / width class / leading-byte pattern, signatures; thinned 1/7 in quick) and of message-level optional masks x list lengths {0,1,2,14..17,255,256} x 1-3 message files, each in every valid encoding with <=1 (quick) / <=2-3 (thorough) non-default choices (integer widths, non-minimal and 8-byte TLFs, time workaround, 1-byte checksum); both parsers must return exactly the abstract content; reader(encode(F))==F is asserted on every input", "§6 C03")
+add("C04", "E4", "model_checking", E4T,
+    "every byte string up to 2 (quick) / 3 (thorough) bytes; for ~14-23 seed files (all constructs + real meter payloads): every truncation, every one-byte insertion/deletion/append, every single-byte substitution by every value (and pairs from 16 structural bytes, thorough), every splice prefix(A)+suffix(B), every TLF position replaced by every type x 19 declared lengths; each as is and with the checksums repaired; parsers must accept exactly when the independent reader accepts and return equal content", "§6 C04")
+add("C06", "E4", "model_checking", E4T + " under a counting global allocator",
+    "all inputs of the C04 families plus every TLF position of every seed replaced by TLFs declaring 0..2^36 and all crafted 4-12 byte TLFs; observed: panics (overflow checks on), largest single request and peak live heap inside complete::parse (<= 4096+128*|x|, calibrated on n minimal entries / k minimal messages), allocator calls inside streaming::Parser (must be 0); huge requests are served lazily from reserved address space so they are reported instead of aborting", "§6 C06")
+add("C09", "E4", "model_checking", E4T + ", comparing the two parsers with each other",
+    "on every input of the generated, short-string, mutation, splice and TLF-replacement families: complete::parse vs the re-assembled streaming events - both Ok with equal files or both Err with the same kind; announced num_values = number of value events, exactly one end event, before the next message start", "§6 C09")
+add("C12", "E4", "model_checking", "exhaustive enumeration of all type-length fields of 1-2 bytes (3 bytes: list site in quick, all four sites in thorough) in context, crafted 4-12 byte fields, and all primitive encodings, against the SML TLF rule",
+    "each TLF is placed at four grammar sites (transaction id, value list, entry value, message head) of an otherwise valid, correctly checksummed message built under every plausible decoded length (the reference's and the wrapped / truncated / own-size-forgotten ones); integers of every width 1-9 x leading byte x fill at 12 sites, all 1- and 2-byte values, all 256 boolean bytes, octet strings of length 0..300; any Ok differing from the reference rule is the violation", "§6 C12")
+add("C13", "E4", "model_checking", E4T + ", checking the iterator protocol",
+    "on every input of the C09 families: at most |x|+1 items, and after the first Err or None four further next() calls return None (hard call limit so a repeating error is reported, not looped on)", "§6 C13")
+
 PENDING = {
 }
 ALL = ["C%02d" % i for i in range(1, 19)]
